@@ -119,3 +119,19 @@ pub fn entry_F1(f: &syn::Field) -> R<F1> { fl(F1::from_field(f)) }
 pub fn entry_V1(v: &syn::Variant) -> R<V1> { fl(V1::from_variant(v)) }
 pub fn entry_V2(v: &syn::Variant) -> R<V2> { fl(V2::from_variant(v)) }
 pub fn entry_T1(t: &syn::TypeParam) -> R<T1> { fl(T1::from_type_param(t)) }
+
+// ---- the stand-alone shape-set API (C18a)
+use darling::util::{Shape, ShapeSet};
+pub fn entry_shape_api(named: bool, tuple: bool, unit: bool, newtype: bool, shape: Shape) -> (bool, bool, Result<(), String>) {
+    let mut s = ShapeSet::default();
+    if named { s.insert(Shape::Named); }
+    if tuple { s.insert(Shape::Tuple); }
+    if unit { s.insert(Shape::Unit); }
+    if newtype { s.insert(Shape::Newtype); }
+    (s.is_empty(), s.contains(&shape), s.check(&shape).map_err(|e| e.to_string()))
+}
+pub fn entry_shape_all(shape: Shape) -> bool {
+    let mut s = ShapeSet::default();
+    s.insert_all();
+    s.contains(&shape)
+}
